@@ -59,10 +59,13 @@ type cidCase struct {
 }
 
 type tuCase struct {
-	CSR    charcode.CodeSpaceRange
-	Levels []map[charcode.Code]string // root first
-	Probes [][]byte
-	Class  string
+	// TextLegs: compare the text of the embedded stream with the model even when the mapping itself is not
+	// replayed in the model (large maps)
+	TextLegs bool
+	CSR      charcode.CodeSpaceRange
+	Levels   []map[charcode.Code]string // root first
+	Probes   [][]byte
+	Class    string
 }
 
 // hand-made structures
@@ -85,7 +88,7 @@ type rawCase struct {
 	WithAll bool
 	// CountOnly: observe only the number of enumerated pairs and the largest code (budget of All)
 	CountOnly bool
-	Class   string
+	Class     string
 }
 
 type runner struct {
@@ -376,7 +379,7 @@ func (t *runner) genTUMap(csr charcode.CodeSpaceRange, runs, maxLen int) map[cha
 		}
 		empty := r.IntN(25) == 0
 		// the way successive values are produced
-		mode := r.IntN(5) // 0,1: +1 skipping to FFFD like nextString pairwise; 2: +1 jumping over the gap; 3: from first; 4: noise
+		mode := r.IntN(5)        // 0,1: +1 skipping to FFFD like nextString pairwise; 2: +1 jumping over the gap; 3: from first; 4: noise
 		middle := r.IntN(8) == 0 // now and then an extra rune between the prefix and the last rune
 		first := last
 		for j, c := range codes {
@@ -997,11 +1000,13 @@ func (t *runner) runTU(cs *tuCase, withModel bool) {
 		}
 		gm, _ := f.GetMapping()
 		e.Line("impl.obs", "%s L=%s A=%s G=%s", id, strings.Join(lk, ","), tuMapWire(collectTU(f, codec)), tuMapWire(gm))
-		if doText && !deepListBlock(f) { // (the real reader refuses such a text: known finding)
+		if doText {
 			t.expectB(id, "T", cs.CSR, len(cs.Levels), cs.Probes,
 				fmt.Sprintf("L=%s A=%s S=%s", strings.Join(lk, ","), tuMapWire(collectTU(f, codec)), csrSorted(f.CodeSpaceRange)))
 		}
 		e.Sample(6, fmt.Sprintf("tounicode csr=[%s] levels=%v -> singles=%d ranges=%d", csrWire(cs.CSR), desc["levels_root_first"], len(f.Singles), len(f.Ranges)))
+	} else if cs.TextLegs {
+		caseID = t.id()
 	}
 
 	cfg := outCfgs[t.embeds%len(outCfgs)]
@@ -1045,14 +1050,7 @@ func (t *runner) runTU(cs *tuCase, withModel bool) {
 		return nil
 	})
 	if msg != "" {
-		if strings.Contains(msg, "stackoverflow") && deepListBlock(f) {
-			// the known finding: a bfrange block whose k-th entry carries a list of m values needs 3k+3+m
-			// operands, the PostScript interpreter allows 500
-			e.Fail("tounicode-extract-operand-stack-overflow", "ExtractToUnicode fails on the embedded ToUnicode CMap ("+msg+
-				"): a bfrange block of up to 100 entries with long value lists exceeds the interpreter's operand stack", d2)
-		} else {
-			e.Fail("tounicode-embed-extract", msg, d2)
-		}
+		e.Fail("tounicode-embed-extract", msg, d2)
 	}
 }
 
@@ -1335,7 +1333,9 @@ func (t *runner) genCIDCase(class string) *cidCase {
 	}
 	for i := 0; i < levels; i++ {
 		l := cidLevel{Data: t.genCIDMap(cs.CSR, runs, maxLen), WMode: r.IntN(2), HasROS: true}
-		if i > 0 && len(cs.Levels[i-1].Data) > 0 {
+		if i > 0 && r.IntN(12) == 0 {
+			l.Data = map[charcode.Code]cid.CID{} // a level that maps nothing itself
+		} else if i > 0 && len(cs.Levels[i-1].Data) > 0 {
 			// repeat part of the parent (right in the parent: omitted; changed: overriding)
 			for k, v := range cs.Levels[i-1].Data {
 				switch r.IntN(4) {
@@ -1410,7 +1410,9 @@ func (t *runner) genTUCase(class string) *tuCase {
 	var mapped [][]byte
 	for i := 0; i < levels; i++ {
 		l := t.genTUMap(cs.CSR, runs, maxLen)
-		if i > 0 {
+		if i > 0 && r.IntN(10) == 0 {
+			l = map[charcode.Code]string{} // a level that maps nothing itself: everything comes from the parent
+		} else if i > 0 {
 			for k, v := range cs.Levels[i-1] {
 				switch r.IntN(4) {
 				case 0:
@@ -1427,19 +1429,6 @@ func (t *runner) genTUCase(class string) *tuCase {
 	}
 	cs.Probes = t.genProbes(cs.CSR, mapped, 6)
 	return cs
-}
-
-// deepListBlock: some file of the chain has a bfrange block (chunks of 100) in which entry k carries a value
-// list of m != 1 elements with 3k+3+m > 500
-func deepListBlock(f *cmap.ToUnicodeFile) bool {
-	for ; f != nil; f = f.Parent {
-		for i, r := range f.Ranges {
-			if m := len(r.Values); m != 1 && 3*(i%100)+3+m > 500 {
-				return true
-			}
-		}
-	}
-	return false
 }
 
 // irregular text for the codes [row, 0..n-1]: no two neighbours are successors, so the run needs a value list
@@ -1476,9 +1465,17 @@ func (t *runner) corpus() {
 	} {
 		t.runTU(&tuCase{CSR: charcode.Simple, Levels: []map[charcode.Code]string{m}, Probes: simpleProbes(0x3f, 0x46), Class: "corpus"}, true)
 	}
-	// bfrange blocks with long value lists: entry 99 of a block with 200 values needs exactly 500 operands
-	// (read back fine), with 201 values 501 (the known finding tounicode-extract-operand-stack-overflow)
-	for _, n := range []int{200, 201} {
+	// F48: bfrange blocks with long value lists must be read back (the interpreter keeps the operands of a block
+	// on a stack of 500): 99 short ranges followed by one with 200 / 201 / 256 values, and 82 rows of 256 values
+	{
+		m := map[charcode.Code]string{}
+		for row := 0; row < 82; row++ {
+			listRow(m, row, 256)
+		}
+		t.runTU(&tuCase{CSR: charcode.UCS2, Levels: []map[charcode.Code]string{m}, TextLegs: true,
+			Probes: [][]byte{{0, 0}, {0, 255}, {40, 7}, {80, 255}, {81, 0}, {81, 255}, {82, 0}, {255, 255}}, Class: "long-lists"}, false)
+	}
+	for _, n := range []int{200, 201, 256} {
 		m := map[charcode.Code]string{}
 		for row := 0; row < 99; row++ {
 			listRow(m, row, 2)
@@ -1488,6 +1485,15 @@ func (t *runner) corpus() {
 		t.runTU(&tuCase{CSR: charcode.UCS2, Levels: []map[charcode.Code]string{m},
 			Probes: [][]byte{{0, 0}, {0, 1}, {0, 2}, {98, 1}, {99, 0}, {99, 199}, {99, 200}, {99, 201}, {100, 0}, {100, 2}, {100, 3}}, Class: "long-lists"}, true)
 	}
+	// a file without mappings of its own over a parent (and an empty level in the middle of a chain)
+	t.runTU(&tuCase{CSR: charcode.Simple, Levels: []map[charcode.Code]string{{0x41: "a", 0x42: "b", 0x50: "x"}, {}},
+		Probes: simpleProbes(0x40, 0x51), Class: "empty-level"}, true)
+	t.runTU(&tuCase{CSR: charcode.Simple, Levels: []map[charcode.Code]string{{0x41: "a", 0x42: "b"}, {}, {0x42: "c", 0x60: "y"}},
+		Probes: simpleProbes(0x40, 0x61), Class: "empty-level"}, true)
+	t.runCID(&cidCase{CSR: charcode.Simple, Levels: []cidLevel{
+		{Data: map[charcode.Code]cid.CID{0x41: 1, 0x42: 2}, HasROS: true, NdRng: []ndRange{{First: []byte{0}, Last: []byte{0xff}, Value: 9}}},
+		{Data: map[charcode.Code]cid.CID{}, HasROS: true}},
+		Probes: simpleProbes(0x40, 0x44), Class: "empty-level"}, true)
 	// two-byte codes, run over the last-byte boundary
 	t.runTU(&tuCase{CSR: charcode.UCS2, Levels: []map[charcode.Code]string{{0xFE01: "a", 0xFF01: "b", 0x0002: "c", 0x0102: "d"}},
 		Probes: [][]byte{{1, 0xfe}, {1, 0xff}, {2, 0}, {2, 1}, {2, 2}, {1, 0xfd}, {1}, {}}, Class: "corpus"}, true)
